@@ -814,9 +814,10 @@ func (t *ZeroAllocTokenizer) processBlockTag(content string) {
 func (t *ZeroAllocTokenizer) tokenizeTemplatePath(path string) {
 	path = strings.TrimSpace(path)
 
-	// If it's a quoted string
-	if (strings.HasPrefix(path, "\"") && strings.HasSuffix(path, "\"")) ||
-		(strings.HasPrefix(path, "'") && strings.HasSuffix(path, "'")) {
+	// If it's a single quoted string (and not an expression that merely starts
+	// and ends with a string, such as 'a' ~ 'b')
+	if len(path) >= 2 && (path[0] == '"' || path[0] == '\'') && path[len(path)-1] == path[0] &&
+		!strings.ContainsRune(path[1:len(path)-1], rune(path[0])) {
 		// Extract content without quotes
 		content := path[1 : len(path)-1]
 		t.AddToken(TOKEN_STRING, content, t.line)
